@@ -187,6 +187,7 @@ pub fn outcome_fail_class(o: &Outcome) -> Option<String> {
     match o {
         Outcome::Panic { loc, msg } => Some(panic_class(loc, msg)),
         Outcome::Hang { .. } => Some("hang".into()),
+        Outcome::Abort { .. } => Some("abort".into()),
         _ => None,
     }
 }
